@@ -141,6 +141,13 @@ func stripLine(file string) string {
 // attributeAccess returns the frame that names the access: the innermost
 // frame in nfpm or a third-party library.
 func attributeAccess(a raceAccess) (raceFrame, bool) {
+	// the innermost nfpm frame names the access (that is where a repair
+	// would go); a race entirely inside a library falls back to its frame
+	for _, f := range a.frames {
+		if strings.HasPrefix(f.fn, "github.com/goreleaser/nfpm/v2") && !strings.Contains(f.fn, "/simyield.") {
+			return f, true
+		}
+	}
 	for _, f := range a.frames {
 		if isSubjectFrame(f) {
 			return f, true
